@@ -107,7 +107,7 @@ func (m *refLRU) State() (keys, ids []uint64, dirty []bool, ml, ll int) {
 }
 
 func checkC15(c *core.Ctx) []core.Floor {
-	c.Rule = "operation sequences over {store clean page, store dirty page, lookup, mark dirty, mark clean, store the resident page object itself again (as a flush does)} x keys, run on the real LRUCache holding real nodes and on a 50-line reference model; after EVERY step the return value and the resident entries (recency order, stored page identity, dirty flags, map and list sizes) must be equal. Exhaustive: all sequences of the stated depth over 3-4 keys at capacities 1-3; random: long sequences at capacities 4-64 with dirty ratios 0-100%, and sequences of 1500-4000 steps on a cache of 4096 / 4097 / 5000 / 8192 / 10000 (the default) pages that was filled first (state compared every 250 steps, return values at every step); sequences at capacities 33-2000 on a cache filled with 90-100% dirty pages, so that the oldest clean page lies behind dozens of dirty ones. Distinct = sequence x capacity; non-trivial = the sequence caused an eviction or a refusal in the model."
+	c.Rule = "operation sequences over {store clean page, store dirty page, lookup, mark dirty, mark clean, store the resident page object itself again (as a flush does)} x keys, run on the real LRUCache holding real nodes and on a 50-line reference model; after EVERY step the return value and the resident entries (recency order, stored page identity, dirty flags, map and list sizes) must be equal. Exhaustive: all sequences of the stated depth over 3-4 keys at capacities 0-3; random: long sequences at capacities 4-64 with dirty ratios 0-100%, and sequences of 1500-4000 steps on a cache of 4096 / 4097 / 5000 / 8192 / 10000 (the default) pages that was filled first (state compared every 250 steps, return values at every step); sequences at capacities 33-2000 on a cache filled with 90-100% dirty pages, so that the oldest clean page lies behind dozens of dirty ones. Distinct = sequence x capacity; non-trivial = the sequence caused an eviction or a refusal in the model."
 	c.Assume = []string{"marking a resident page dirty/clean happens through the node pointer, as the B+ tree code does (no recency change)"}
 	drv := mustDriver(c, false)
 	type batch struct {
@@ -123,7 +123,7 @@ func checkC15(c *core.Ctx) []core.Floor {
 	for _, e := range exh {
 		total := lruseq.Count(e.depth, e.keys)
 		chunk := total/uint64(c.Workers*4) + 1
-		for capn := 1; capn <= 3; capn++ {
+		for capn := 0; capn <= 3; capn++ { // capacity 0: holds nothing, refuses everything
 			for lo := uint64(0); lo < total; lo += chunk {
 				hi := lo + chunk
 				if hi > total {
@@ -248,7 +248,7 @@ func checkC15(c *core.Ctx) []core.Floor {
 		}
 	})
 	for _, e := range exh {
-		c.Extra(fmt.Sprintf("exhaustive_scope_depth%d_keys%d", e.depth, e.keys), fmt.Sprintf("all %d sequences x capacities 1..3", lruseq.Count(e.depth, e.keys)))
+		c.Extra(fmt.Sprintf("exhaustive_scope_depth%d_keys%d", e.depth, e.keys), fmt.Sprintf("all %d sequences x capacities 0..3", lruseq.Count(e.depth, e.keys)))
 	}
 	c.Sample(3, map[string]interface{}{"exhaustive_example": fmt.Sprint(lruseq.Enum(12345, exh[0].depth, exh[0].keys)), "random_example_prefix": fmt.Sprint(lruseq.Random(7, 12, 6, 50))})
 	return []core.Floor{{Key: "evictions_in_model", Min: 1000}, {Key: "refusals_in_model", Min: 100}, {Key: "dirty_entries_skipped_by_eviction", Min: 100}, {Key: "random_sequences", Min: int64(nRandom)}, {Key: "sequences_at_the_default_capacity_of_10000", Min: 4}}
